@@ -12,7 +12,7 @@ import gram
 from impl import trees, treeinput, treeoutput, grammar, treeanalysis, quiet, clone
 
 ID = "C18"
-MODULE = ['TT.Props.C18', 'TT.Props.C18More']
+MODULE = ['TT.Props.C18', 'TT.Props.C18More', 'TT.Props.C18Run']
 RULE = ("(a) histories of 3..7 calls in one process (readers, writers, transformations incl. substitute/insert with two "
         "differently named terminal files, one of them with a duplicate index, grammar extraction/binarization/writing "
         "incl. lex_in_grammar written twice) each compared with the same call in a fresh process, under PYTHONHASHSEED "
@@ -85,7 +85,8 @@ def mk_history(rng):
             if fmt == "lopar":
                 ts = [small_tree(rng, disc=False) for _ in range(rng.randint(1, 3))]
             calls.append({"op": "grammar", "trees": [proto.enc_tree(t) for t in ts], "mode": rng.choice(["treebank", "leftright", "optimal"]),
-                          "markov": rng.choice([None, {"v": 1, "h": 1}]), "fmt": fmt,
+                          "markov": rng.choice([None, {"v": 1, "h": 1}, {"v": 1, "h": 1}, {"v": 2, "h": 1, "nofanout": True}]),
+                          "markov_key": rng.choice([None, "opts-a", "opts-a", "opts-b"]), "fmt": fmt,
                           "opts": {"lex_in_grammar": True} if (fmt != "lopar" and rng.random() < 0.5) else {},
                           "times": rng.choice([1, 2])})
         else:
